@@ -177,5 +177,12 @@ def run : Runner
         | _ => true
       if bad.isEmpty then "ok" else "violated:totals drift"
     pure { model, prop }
+  -- SimpleCoin: value, value-age = confirmations x value, index, confirmations, txid, script of the referenced output
+  | "simple", [_, vals, ix, confs], _ => do
+    let vals ← list? int? vals
+    let ix ← nat? ix
+    let confs ← int? confs
+    let v := vals.getD ix 0
+    pure { model := s!"{v} {confs * v} {ix} {confs} 1 51{Bytes.tok [UInt8.ofNat ix]}", prop := "spec" }
   | _, _, _ => none
 end Bch.Drive.C19
